@@ -7,6 +7,9 @@ var commonAssumptions = []string{
 }
 
 var props = map[string]propMeta{
+	"C15": {Level: "model_checking", QuickS: 200, ThoroughS: 1800,
+		Rule: "full product colour {default, --no-color global, --no-color on reg} x template {default, left-aligned, old} x shorten x totals {default, --no-totals, --totals-only} (54 register configurations) x every log of <= 2 (thorough 3) + optional second-day entries over 4 foods (35-rune path name, multi-byte names, undefined food) x {1,-2,0}; plus --desc on report quantity / element-total over all logs of <= 3 entries. A case is non-trivial when the first day has entries.",
+		Assumptions: commonAssumptions},
 	"C12": {Level: "model_checking", QuickS: 200, ThoroughS: 1800,
 		Rule: "every append history of <= 4 (thorough 6) day blocks over 7 blocks (same date again, same entries in another order, empty day, negative quantities, repeated food, note) x 2 books; on every edge H -> H.b the concatenation law (8 per-day commands, byte-wise) and the element-wise-sum law (5 period commands, parsed row maps) are checked on the real program. A case is non-trivial when the history before the appended block is non-empty.",
 		Assumptions: commonAssumptions},
